@@ -2,6 +2,8 @@ import Driver.Proto
 import TonicModel.Basic.ReflDescriptor
 import TonicModel.Model.Reflection
 import TonicModel.Spec.Reflection
+import TonicModel.Model.ReflectionWire
+import TonicModel.Spec.ReflectionWire
 /-
 C19 driver.  Case grammar: see harness/src/c19.rs.  The model output is computed with
 `Reflection.build` / `Reflection.runStream` (one model for v1 and v1alpha, instantiated with the
@@ -185,9 +187,22 @@ def errText : Reflection.Err → String
   | .missingFileName => "build-err invalid " ++ hex (Ascii.ofString "missing name")
   | .missing k => "build-err invalid " ++ hex (Ascii.ofString ("missing " ++ kindText k ++ " name"))
 
+def hexDigit (n : Nat) : Char := Hex.digit n
+
+/-- 16 lower-case hex digits of a 64-bit value -/
+def hex64 (v : UInt64) : String :=
+  String.ofList ((List.range 16).map (fun i => hexDigit ((v.toNat >>> (4 * (15 - i))) % 16)))
+
+/-- the bytes token of a descriptor answer: `-` (opaque descriptor), the bytes, or their digest -/
+def bytesToken (f : File) : String :=
+  if f.extra ≠ 0 then "-"
+  else
+    let b := ReflWire.encFile f
+    if b.length ≤ 96 then hex b else "h" ++ hex64 (ReflWire.fnv1a b)
+
 def indexOf (files : List File) (f : File) : String :=
   match files.findIdx? (fun g => decide (g = f)) with
-  | some i => s!"fd {i}"
+  | some i => s!"fd {i} {bytesToken f}"
   | none => "fd-unknown"
 
 def answerText (files : List File) : Reflection.Answer → List String
@@ -221,7 +236,7 @@ def modelVersion (c : Case) (own : Option File) : String :=
 /-! ### observed side -/
 
 inductive OAns where
-  | fd (i : Nat) | ext | svcs (l : List Name) | junk (what : String)
+  | fd (i : Nat) (bytes : Option Bytes) | ext | svcs (l : List Name) | junk (what : String)
 
 inductive OEnd where
   | fin | err (code : Nat) | junk
@@ -244,8 +259,8 @@ def oStream : Nat → List String → List OAns → Option ((List OAns × OEnd) 
     match ts with
     | "end" :: "]" :: r => some ((acc.reverse, .fin), r)
     | "err" :: c :: _ :: "]" :: r => some ((acc.reverse, .err (c.toNat?.getD 0)), r)
-    | "r1" :: "fd" :: i :: r => match i.toNat? with
-        | some i => oStream fuel r (.fd i :: acc)
+    | "r1" :: "fd" :: i :: w :: r => match i.toNat? with
+        | some i => oStream fuel r (.fd i (unhex w) :: acc)
         | none => none
     | "r1" :: "ext-empty" :: r => oStream fuel r (.ext :: acc)
     | "r1" :: "svcs" :: k :: r => match k.toNat? with
@@ -279,6 +294,14 @@ def oBuild (ts : List String) : OBuild × List String :=
 
 /-! ### spec verdict on the observed answers -/
 
+/-- when the answer bytes themselves were observed: the oracle's own protobuf reader (not
+prost) turns them into exactly the registered descriptor -/
+def decodesTo (files : List File) (i : Nat) : Option Bytes → Bool
+  | none => true
+  | some bs => match files[i]?, Spec.ReflWire.decFile 100 bs with
+    | some f, some g => decide (g = f)
+    | _, _ => false
+
 open Spec.Reflection in
 def judgeAnswer (c : Case) (files : List File) (rq : Reflection.Req) (a : OAns) : List (String × Bool) :=
   match rq, a with
@@ -286,15 +309,17 @@ def judgeAnswer (c : Case) (files : List File) (rq : Reflection.Req) (a : OAns) 
     if w = "fd-unknown" || w = "fd-undecodable" || w = "fds" then
       [("descriptor-decodes-to-registered", false)]
     else [("answer-shape:" ++ w, false)]
-  | .fileContainingSymbol n, .fd i =>
+  | .fileContainingSymbol n, .fd i bs =>
     [("symbol-resolves-to-declaring-file", match files[i]? with
       | some f => declares f n
-      | none => false)]
+      | none => false),
+     ("descriptor-decodes-to-registered", decodesTo files i bs)]
   | .fileContainingSymbol _, _ => [("symbol-answer-kind", false)]
-  | .fileByFilename nm, .fd i =>
+  | .fileByFilename nm, .fd i bs =>
     [("file-by-name", match files[i]? with
       | some f => decide (f.name = some nm)
-      | none => false)]
+      | none => false),
+     ("descriptor-decodes-to-registered", decodesTo files i bs)]
   | .fileByFilename _, _ => [("file-answer-kind", false)]
   | .listServices _, .svcs l =>
     match c.chosen with
